@@ -36,6 +36,10 @@ def neutral_dir() -> str:
     if _NEUTRAL is None or not os.path.isdir(_NEUTRAL):
         base = "/dev/shm" if os.path.isdir("/dev/shm") else tempfile.gettempdir()
         _NEUTRAL = tempfile.mkdtemp(prefix="vf-neutral-", dir=base)
+        import atexit
+        import shutil
+
+        atexit.register(lambda p=_NEUTRAL, owner=os.getpid(): shutil.rmtree(p, ignore_errors=True) if os.getpid() == owner else None)
     return _NEUTRAL
 
 
